@@ -355,6 +355,41 @@ func Run[T any](t *testing.T, s Spec[T]) {
 	})
 }
 
+// Fuzz is the byte-driven arm of a spec (thorough tier): the same generator and oracle, driven by go's native
+// coverage-guided mutator through rapid.MakeFuzz. A failing execution writes a replay file in the usual format
+// (<ID>-fuzz.json) before failing, so the saved case — not the fuzzer's byte string — is the reproducible unit.
+func Fuzz[T any](f *testing.F, s Spec[T]) {
+	// rapid consumes 8 input bytes per drawn word and skips an execution whose input runs out, so the seed corpus has
+	// to be long: eight fixed 4 KiB byte strings (a constant xorshift sequence; this is corpus data, not a source of
+	// randomness of the check — every choice of a case is still a rapid draw from the fuzzer's input).
+	for seed := uint64(1); seed <= 8; seed++ {
+		x := seed * 0x9E3779B97F4A7C15
+		b := make([]byte, 4096)
+		for i := range b {
+			x ^= x << 13
+			x ^= x >> 7
+			x ^= x << 17
+			b[i] = byte(x >> 32)
+		}
+		f.Add(b)
+	}
+	f.Fuzz(rapid.MakeFuzz(func(rt *rapid.T) {
+		c := s.Gen(rt)
+		res := s.Check(c)
+		for _, v := range res.Violations {
+			if IsKnown(s.ID, v.Rule) {
+				continue
+			}
+			dir := os.Getenv("VERIF_REPLAY_OUT_DIR")
+			if dir == "" {
+				dir = os.TempDir()
+			}
+			p := writeReplayTo(filepath.Join(dir, s.ID+"-fuzz.json"), s.ID, v, c)
+			rt.Fatalf("VERIF-FAIL property=%s rule=%s replay=%s :: %s", s.ID, v.Rule, p, v.Msg)
+		}
+	}))
+}
+
 func replayOne[T any](t *testing.T, s Spec[T], path string, strictDecode bool) {
 	b, err := os.ReadFile(path)
 	if err != nil {
